@@ -7,6 +7,7 @@ import (
 	"unicode"
 
 	"verif/harness/cases"
+	"verif/harness/tool"
 )
 
 func isUpperRune(r rune) bool { return unicode.IsUpper(r) }
@@ -28,3 +29,7 @@ func min(a, b int) int {
 	}
 	return b
 }
+
+func tool_hash(parts ...string) string { return toolHash(parts...) }
+
+func toolHash(parts ...string) string { return tool.Hash(parts...) }
